@@ -25,7 +25,7 @@ func isMismatch(class string) bool {
 		class == "exit:"+core.RegMismatch || class == "exit:"+core.MemMismatch
 }
 
-var wmProps = []string{"C01", "C03", "C04", "C05", "C07", "C09", "C10", "C12"}
+var wmProps = []string{"C01", "C03", "C04", "C05", "C06", "C07", "C09", "C10", "C12"}
 
 // The trigger regions are deliberately expressed in program terms (what the
 // reference executes), never in terms of what the machine did.
@@ -107,7 +107,11 @@ var triggers = []trigger{
 		id: "KF-W5", props: wmProps,
 		match: func(c *core.Case, f *features, class string) bool {
 			v := c.Cfg.V
-			return (v == mach.MVP70 || v == mach.MVP71) && c.Cfg.Cores >= 2 && f.loads+f.stores >= 2 && f.redirects >= 1
+			n := f.loads + f.stores
+			if f.shadowHasMem {
+				n++ // a wrong-path access counts: it is what gets cancelled
+			}
+			return (v == mach.MVP70 || v == mach.MVP71) && c.Cfg.Cores >= 2 && n >= 2 && f.redirects >= 1
 		},
 	},
 	{
